@@ -97,7 +97,7 @@ class ModelScripts:
         return lines
 
 
-def random_history(rng, kind, nkeys, nvals, nops, p_fail=0.05, with_bad=False, two=True, init_pairs=0, alias=True, refuse=False, xasg=True):
+def random_history(rng, kind, nkeys, nvals, nops, p_fail=0.05, with_bad=False, two=True, init_pairs=0, alias=True, refuse=False, xasg=True, getalias=False):
     """A random in-contract history (plus absent-key get/rem, which the properties define) over up to 3 containers."""
     lines = ["reset"]
     kinds = {}
@@ -115,6 +115,9 @@ def random_history(rng, kind, nkeys, nvals, nops, p_fail=0.05, with_bad=False, t
         o = rng.choice(sorted(kinds))
         r = rng.random()
         k = rng.choice(hot) if rng.random() < 0.7 else rng.randint(1, nkeys)
+        if getalias and present[o] and rng.random() < 0.05:
+            lines.append("getalias %d %d" % (o, rng.choice(sorted(present[o]))))       # a value living inside the container used as a key
+            continue
         if xasg and present[o] and rng.random() < 0.025:
             lines.append("xasg %d" % o)           # assigned from a map of other element types (other sizes), and back
             continue
